@@ -80,10 +80,64 @@ static void op_tagname_range(int nt, char **t) {
 /* the enumerators themselves are observed at compile time by the translator's probe */
 static void op_enumcheck(int nt, char **t) { (void) nt; (void) t; printf("enumcheck compiled"); }
 
+/* crc <hex>: libwifi_crc32 and libwifi_calculate_fcs of the message */
+static void op_crc(int nt, char **t) {
+    (void) nt;
+    size_t n; unsigned char *b = hexbuf(t[1], &n);
+    uint32_t c, f;
+    LIB(c = libwifi_crc32(b, (int) n));
+    LIB(f = libwifi_calculate_fcs(b, n));
+    unsigned char fb[4]; memcpy(fb, &f, 4);
+    printf("crc %u ", c); out_hex(fb, 4);
+    __real_free(b);
+}
+
+/* verify <hex>: libwifi_frame_verify on an exactly sized block; the input must not be modified */
+static void op_verify(int nt, char **t) {
+    (void) nt;
+    size_t n; unsigned char *b = hexbuf(t[1], &n);
+    unsigned char *copy = __real_malloc(n); memcpy(copy, b, n);
+    int r;
+    LIB(r = libwifi_frame_verify(b, n));
+    printf("verify %d%s", r, memcmp(copy, b, n) ? " MODIFIED" : "");
+    __real_free(b); __real_free(copy);
+}
+
+/* cap <shape> <name index> <a> <b> <c>: the capability macro as the real preprocessor and compiler see it */
+#define CAP_NAMES(X) X(CAPABILITIES_ESS) X(CAPABILITIES_IBSS) X(CAPABILITIES_POLL) X(CAPABILITIES_POLL_REQ) \
+    X(CAPABILITIES_PRIVACY) X(CAPABILITIES_SHORT_PREAMBLE) X(CAPABILITIES_PBCC) X(CAPABILITIES_CHAN_AGILITY) \
+    X(CAPABILITIES_SPECTRUM_AGILITY) X(CAPABILITIES_SHORT_SLOT) X(CAPABILITIES_POWER_SAVE) X(CAPABILITIES_MEASUREMENT) \
+    X(CAPABILITIES_DSSS_OFDM) X(CAPABILITIES_DELAYED_ACK) X(CAPABILITIES_IMMEDIATE_ACK)
+#define CAP_FN(N) static long long cap_##N(int sh, uint16_t a, uint16_t b, uint16_t c) { \
+    switch (sh) { \
+        case 0: return libwifi_check_capabilities(a, N); \
+        case 1: return libwifi_check_capabilities((a), N); \
+        case 2: return libwifi_check_capabilities(a | b, N); \
+        case 3: return libwifi_check_capabilities(c ? a : b, N); \
+        case 4: return libwifi_check_capabilities(a & b, N); \
+        case 5: return libwifi_check_capabilities(a ^ b, N); \
+        case 6: return libwifi_check_capabilities(a + b, N); \
+        default: return libwifi_check_capabilities(a << 1, N); \
+    } }
+CAP_NAMES(CAP_FN)
+#define CAP_ENTRY(N) {#N, cap_##N},
+static const struct { const char *name; long long (*fn)(int, uint16_t, uint16_t, uint16_t); } cap_tab[] = { CAP_NAMES(CAP_ENTRY) };
+
+static void op_cap(int nt, char **t) {
+    (void) nt;
+    int sh = (int) tok_ll(t[1]);
+    unsigned k = (unsigned) tok_ll(t[2]);
+    if (k >= sizeof cap_tab / sizeof cap_tab[0]) { printf("cap bad-name"); return; }
+    printf("cap %s %lld", cap_tab[k].name, cap_tab[k].fn(sh, (uint16_t) tok_ll(t[3]), (uint16_t) tok_ll(t[4]), (uint16_t) tok_ll(t[5])));
+}
+
 const struct op ops_misc[] = {
     {"epoch", op_epoch},
     {"epoch2", op_epoch2},
     {"epoch_frames", op_epoch_frames},
+    {"cap", op_cap},
+    {"crc", op_crc},
+    {"verify", op_verify},
     {"tagname", op_tagname},
     {"tagname_range", op_tagname_range},
     {"enumcheck", op_enumcheck},
